@@ -1,0 +1,11 @@
+//go:build verif
+
+// Contracts for contract-based deductive verification (see /verif/DESIGN.md).
+// Comment-only file: it contributes no code to any build.
+
+package log
+
+//@ func NewNop
+//@   props C19
+//@   modifies nothing
+//@   ensures result != nil
